@@ -28,6 +28,7 @@ pub fn c16_plan() -> Plan {
         directed: vec![],
         quick_histories: 400,
         thorough_histories: 40_000,
+        s5: None,
     }
 }
 
@@ -57,5 +58,6 @@ pub fn c19_plan() -> Plan {
         directed: vec![],
         quick_histories: 400,
         thorough_histories: 40_000,
+        s5: None,
     }
 }
